@@ -240,6 +240,11 @@ def some_table(which):
                 E({R.east}, 0x0, 0xfffffff8)]
     if which == 1:
         return [E({R.north}, 0x7, m), E({R.north}, 0x8, m)]
+    if which == 5:
+        # orthogonal entries NOT in order of generality (the general entry
+        # comes first): the caller's list must keep its order
+        return [E({R.east}, 0x8, 0xfffffff8), E({R.north}, 0x1, m),
+                E({R.north}, 0x2, m), E({R.core(1)}, 0x4, m)]
     if which == 3:
         # merges to 00XX
         return [E({R.north}, 0x1, m), E({R.north}, 0x2, m)]
@@ -487,6 +492,8 @@ def call_table():
         ("oc_c", c_min("oc", 2, None)),
         ("oc_a2", c_min("oc", 3, None)),
         ("oc_p2", c_min("oc", 4, None)),
+        ("oc_unsorted", c_min("oc", 5, None)),
+        ("mt_unsorted", c_min("mt", 5, None)),
         ("oc_t", c_min("oc", 0, 3)),
         ("mt", c_min("mt", 2, 1)),
         ("mts", c_min("mts", 1, None)),
